@@ -25,6 +25,11 @@
 (*                  in lattice units (n = number of border points, c =     *)
 (*                  their centroid): fixed point with factor F per point   *)
 (*      raised      the call raised an exception                           *)
+(*      hist        number of calls made before on the SAME relocator      *)
+(*                  instance (with other data grids); every call is judged *)
+(*                  against the border of the grid passed to that call     *)
+(*      h,w,u,sub,lat  the relocator's mask and sub-size map; lat = the    *)
+(*                  sub-sizes divide 12, so bidx is judged as a selection  *)
 (*                                                                         *)
 (* Rounding: |R - F*n*(p'-c)| <= 1/2 + eta per component (eta < 1e-6 for   *)
 (* the float evaluation of the implementation and of the abstraction).     *)
@@ -86,6 +91,20 @@ WantSelect(r) ==
                             LET kk == Rank(bm[k], u, r.w)
                             IN { SubIndex(kk, q, r.sub, offs) : q \in Best(bm[k], r.sub[kk], Centre2(u)) }]]
 
+\* the sub-border indices used by a relocation call are a valid selection for the relocator's mask and sub-size map
+ValidSelection(r) ==
+    LET u    == Un(r)
+        offs == Offsets(r.sub)
+        nfs  == SlimSeq(u, r.h, r.w)
+        pix  == [k \in DOMAIN r.bidx |-> PixelOfSub(r.bidx[k], offs)]
+        ctr  == Centre2(u)
+    IN /\ SubsOk(r)
+       /\ \A k \in DOMAIN pix : pix[k] >= 1
+       /\ \A k \in 1 .. Len(pix) - 1 : pix[k] < pix[k+1]
+       /\ LET B == { nfs[pix[k]] : k \in DOMAIN pix }
+          IN BorderMust(u, r.h, r.w) \subseteq B /\ B \subseteq BorderMay(u, r.h, r.w)
+       /\ \A k \in DOMAIN pix : SubPos(r.bidx[k], pix[k], r.sub, offs) \in Best(nfs[pix[k]], r.sub[pix[k]], ctr)
+
 \* ---- relocation -------------------------------------------------------------
 WellFormedReloc(r) ==
     /\ Len(r.bidx) >= 1
@@ -133,6 +152,7 @@ ClausesReloc(r) ==
     IN IF ~ inrange THEN << Cl("fixed-point-scale-in-range", FALSE) >>
        ELSE
        << Cl("count-preserved", Len(r.out) = Len(P)),
+          Cl("border-is-a-valid-sub-border-of-the-mask", r.lat => ValidSelection(r)),
           Cl("inside-smallest-border-radius-bit-for-bit-unchanged",
              \A k \in DOMAIN P : (N2(q[k]) < rmin2 \/ (N2(q[k]) = rmin2 /\ isBorderCopyAtRMin(k))) => r.out[k][1] = 1),
           Cl("never-outward",
@@ -166,7 +186,8 @@ Sig(r) ==
     IF r.api = "select"
     THEN IF SubsOk(r) /\ \A k \in DOMAIN r.sub : r.sub[k] = r.sub[1] THEN "select-uniform-sub" ELSE "select-mixed-sub"
     ELSE IF r.api = "relocate"
-    THEN r.call \o (IF r.raised THEN "-raised" ELSE IF Len(r.bidx) = 1 THEN "-single-border-point" ELSE "")
+    THEN r.call \o (IF r.hist > 0 THEN "-on-reused-relocator" ELSE "")
+                \o (IF r.raised THEN "-raised" ELSE IF Len(r.bidx) = 1 THEN "-single-border-point" ELSE "")
     ELSE r.api
 
 Clauses(r) == CASE r.api = "select" -> ClausesSelect(r)
